@@ -26,9 +26,9 @@ Ltac step_inv H :=
   try (injection H as H; subst).
 
 (* projections of updated states *)
-Ltac proj := cbn [segs unflushed unsynced snapfiles ckpts engine rc nrel wstate wcommit hcommit latest rdp rdseq rd_done
+Ltac proj := cbn [segs unflushed unsynced snapfiles ckpts engine cache restoring rc nrel wstate wcommit hcommit latest rdp rdseq rd_done
                   rs_last published queue app applied snapi sns ckp pg_wal pg_snap acked proposed
-                  set_segs set_unflushed set_unsynced set_snapfiles set_ckpts set_engine set_rc set_nrel set_wstate set_wcommit
+                  set_segs set_unflushed set_unsynced set_snapfiles set_ckpts set_engine set_cache set_restoring set_rc set_nrel set_wstate set_wcommit
                   set_hcommit set_latest set_rdp set_rdseq set_rd_done set_rs_last set_published set_queue set_app set_applied
                   set_snapi set_sns set_ckp set_pg_wal set_pg_snap set_acked set_proposed reset_volatile save_records] in *.
 
@@ -125,6 +125,7 @@ Record VInv (c : config) (s : state) (hi : N) : Prop := {
   v_applied : applied s <= published s;
   v_app : match app s with
           | ApIdle | ApDone | ApTrigger | ApTriggerDone => applied s <= rd_done s
+          | ApFlushed => applied s <= rd_done s /\ cache s = []
           | ApTriggered i => i = applied s /\ applied s <= rd_done s /\ snapi s < applied s
           | ApApplying b => applied s <= rd_done s /\ (b_n b = 0 \/ b_last b <= published s)
           | ApApplied b => (b_n b = 0 -> applied s <= rd_done s) /\ applied s <= N.max (rd_done s) (b_last b)
@@ -139,7 +140,7 @@ Record VInv (c : config) (s : state) (hi : N) : Prop := {
             /\ (sn_before_marker p = false -> i <= newest (segs s));
   v_files : forall f, In f (snapfiles s) -> newest (segs s) < f -> sn_lookup f (sns s) = Some SnFile;
   v_pgsnap : forall f, pg_snap s = Some f -> f < newest (segs s);
-  v_pgwal : pg_wal s = true -> (0 < nrel s)%nat;
+  v_pgwal : (pg_wal s = true -> (0 < nrel s)%nat) /\ restoring s = None;
   v_ck : match ckp s with
          | CkSaving i l => l = range 0 i /\ newest (segs s) < i
                            /\ (forall k p, sn_lookup k (sns s) = Some p -> k <= i /\ (k = i -> p = SnStarted))
@@ -151,19 +152,20 @@ Record VInv (c : config) (s : state) (hi : N) : Prop := {
 (* between a crash and the end of the restart *)
 Definition RInv (s : state) : Prop :=
   unflushed s = 0%nat /\ rdp s = RdIdle /\ app s = ApIdle /\ sns s = [] /\ ckp s = CkIdle /\ pg_wal s = false
-  /\ pg_snap s = None /\ queue s = [] /\ wstate s = false /\
+  /\ pg_snap s = None /\ queue s = [] /\ wstate s = false
+  /\ (forall i, restoring s = Some i -> i = newest (segs s) /\ 0 < i) /\
   match rc s with
-  | RcStart => latest s = 0 /\ engine s = None
+  | RcStart => latest s = 0 /\ (forall l, engine s = Some l -> l = range 0 (newest (segs s)))
   | RcChosen j => j = newest (segs s) /\ 0 < j /\ latest s = j /\ (forall f, In f (snapfiles s) -> f <= j)
                   /\ (forall l, engine s = Some l -> l = range 0 j)
   | RcRestored j => j = newest (segs s) /\ 0 < j /\ latest s = j /\ (forall f, In f (snapfiles s) -> f <= j)
-                    /\ engine s = Some (range 0 j)
-  | RcNone => newest (segs s) = 0 /\ latest s = 0 /\ snapfiles s = [] /\ engine s = Some []
+                    /\ engine s = Some (range 0 j) /\ restoring s = None
+  | RcNone => newest (segs s) = 0 /\ latest s = 0 /\ snapfiles s = [] /\ engine s = Some [] /\ restoring s = None
   | RcRunning => False
   end.
 
 (* the configuration of the code as it is (both fixes in) *)
-Definition fixed (c : config) : Prop := persist_first c = true /\ clean_orphans c = true.
+Definition fixed (c : config) : Prop := persist_first c = true /\ clean_orphans c = true /\ flush_first c = true.
 
 (* schedule hypothesis: fewer snapshot goroutines than files the snap purge keeps are between "snap file written"
    and "WAL marker written" (the code keeps at least 2 files, so one such goroutine is always fine) *)
